@@ -64,7 +64,7 @@ CHECKS = {
     },
     "C09": {
         "category": "proof",
-        "text": "PARTIAL proof. Proved in Coq (abstract device): at every protocol state -- hence at the state where a device call fails -- every crash image and the device as it stands recover to the contents before or after the transaction in flight and never to anything older than the last acknowledgement; a failed write-before or fsync changes no crash image; whatever part of a journaled batch reached the device is contained in the journaled extents (so it can be scrubbed, and is wiped by replay). NOT proved: the failure-handling code itself (scrub transaction, quarantine/poison, requeue order, error propagation worker -> force_flush -> flush_all, healing). That part is decided by execution: fault injection at every device call (before/after), pairs, persistent and healing failures on the real store with the Coq monitor accepting each faulted history and an oracle for acknowledgement windows, reads during failure, no hang/death, and flush success after healing.",
+        "text": "PARTIAL proof. Proved in Coq (abstract device): at every protocol state -- hence at the state where a device call fails -- every crash image and the device as it stands recover to the contents before or after the transaction in flight and never to anything older than the last acknowledgement; a failed write-before or fsync changes no crash image; whatever part of a journaled batch reached the device is contained in the journaled extents (so it can be scrubbed, and is wiped by replay). Also proved: the scrub of a failed batch whose intent is durable (journal ACTIVE again in the other slot, markers, clear) is restartable at every point and recovers, from the failure to its end, exactly the cells the batch found. NOT proved: the rest of the failure-handling code (which failures take the scrub path, quarantine/poison, requeue order, error propagation worker -> force_flush -> flush_all, healing). That part is decided by execution: fault injection at every device call (before/after), pairs, persistent and healing failures on the real store with the Coq monitor accepting each faulted history and an oracle for acknowledgement windows, reads during failure, no hang/death, and flush success after healing.",
         "note": TRUST + " Fault model A4 (fail-stop; failed fsync = writes stay un-synced). io_uring-path faults are not injected.",
         "design": "DESIGN.md section 5 C09",
     },
